@@ -1,94 +1,29 @@
-//! probe (temporary)
-use anda_cognitive_nexus::{
-    CognitiveNexus,
-    nexus::DEFAULT_SPACE,
-    profiles::COGNITIVE_MEMORY,
-    schema::{PackageState, SchemaLock, SchemaPackage},
-};
-use anda_db::database::{AndaDB, DBConfig};
-use anda_kip::{Executor, Request};
-use object_store::memory::InMemory;
-use std::sync::Arc;
+//! C17 — a KML statement is all-or-nothing and versions each element once.
+//!
+//! Case = a sequence of generated KML statements (multi-clause blocks with forward references,
+//! UPSERT / ENSURE hits and misses, failing EXPECT guards, clauses failing first / middle / last,
+//! conflicts only detectable at commit, dry runs) executed through `parse_kip` +
+//! `Executor::execute` on a fresh in-memory Nexus.
+//!
+//! * correspondence: every statement is also sent to the Lean model (`drv_c17`), which predicts
+//!   the receipt (status, sequence, changes with versions) and the whole store afterwards (every
+//!   row of the five element collections incl. `pending` shells and their ids, journal, version log);
+//! * oracle (independent of the model): before/after dumps of everything a query, a META command or
+//!   an `AS OF` read returns must be equal for refused / dry / unparsable statements; a commit takes
+//!   one fresh sequence, adds one journal row, raises each changed element's version by exactly one
+//!   and writes nothing else; tuples and logical keys stay unique.
+mod drive;
+mod ops;
+mod oracle;
+mod runner;
+mod world;
 
-const PROFILE_ID: &str = "kip://profiles/cognitive-memory";
-
-async fn nexus(name: &str) -> CognitiveNexus {
-    let db = AndaDB::connect(Arc::new(InMemory::new()), DBConfig { name: name.to_string(), description: "x".into(), ..Default::default() }).await.unwrap();
-    let nexus = CognitiveNexus::connect(Arc::new(db)).await.unwrap();
-    nexus.install_package(&SchemaPackage::parse(COGNITIVE_MEMORY).unwrap(), "test").await.unwrap();
-    let mut lock = SchemaLock::default();
-    lock.packages.insert(PROFILE_ID.to_string(), "2.0.0".to_string());
-    lock.states.insert(PROFILE_ID.to_string(), PackageState::Active);
-    nexus.activate_schema(DEFAULT_SPACE, lock).await.unwrap();
-    nexus
-}
-
-async fn run(nexus: &CognitiveNexus, command: &str) -> anda_kip::Response {
-    let request = Request::single(command);
-    let parsed = match anda_kip::parse_kip(command) {
-        Ok(p) => p,
-        Err(e) => {
-            println!("PARSE ERROR {command}: {e:?}");
-            return anda_kip::Response::default();
-        }
-    };
-    nexus.execute(parsed, &request, &request.operations[0]).await
-}
-
-async fn show(nexus: &CognitiveNexus, command: &str) {
-    let r = run(nexus, command).await;
-    println!("--- {command}\n{}", serde_json::to_string(&r).unwrap());
-}
-
-
-async fn showp(nexus: &CognitiveNexus, command: &str, params: &[(&str, &str)], dry: bool) {
-    let mut request = Request::single(command);
-    let mut m = serde_json::Map::new();
-    for (k, v) in params { m.insert(k.to_string(), serde_json::Value::String(v.to_string())); }
-    request.parameters = Some(m);
-    if dry { request.options = Some(anda_kip::RequestOptions { dry_run: Some(true), ..Default::default() }); }
-    let parsed = match anda_kip::parse_kip(command) { Ok(p) => p, Err(e) => { println!("PARSE ERROR {command}: {}", e.message); return; } };
-    let r = nexus.execute(parsed, &request, &request.operations[0]).await;
-    let txt = serde_json::to_string(&r).unwrap();
-    println!("--- {command} {params:?}\n{}", &txt[..txt.len().min(1200)]);
-}
-
-#[tokio::main]
-async fn main() {
-    let n = nexus("probe").await;
-    showp(&n, r#"MUTATE {
-        CREATE CONCEPT ?a { TYPE "Person" NAME "Alice" SET FIELDS {key: "a"} }
-        CREATE CONCEPT ?d { TYPE "Preference" NAME "Dark" SET FIELDS {key: "d"} }
-        ENSURE PROPOSITION ?p1 (?a, "prefers", ?d)
-        ENSURE PROPOSITION ?p2 (?a, "prefers", ?d)
-    }"#, &[], false).await;
-    showp(&n, r#"FIND(?p.id, ?p._system.state, ?p._system.version) WHERE { ?p PROPOSITION (?s, ?pred, ?o) }"#, &[], false).await;
-    showp(&n, r#"FIND(?c.id, ?c._system.state, ?c._system.version) WHERE { ?c CONCEPT {state: ?s} }"#, &[], false).await;
-    showp(&n, "HISTORY SPACE", &[], false).await;
-    showp(&n, r#"FIND(?c.id, ?c._system.version) WHERE { ?c CONCEPT {state: ?s} } AS OF SEQ 1"#, &[], false).await;
-    showp(&n, r#"FIND(?p.id) WHERE { ?p PROPOSITION (?s, ?pred, ?o) } AS OF SEQ 1"#, &[], false).await;
-    // second try with params on fresh elements
-    showp(&n, r#"MUTATE {
-        CREATE CONCEPT ?a { TYPE "Person" NAME "Bob" SET FIELDS {key: "b"} }
-        CREATE CONCEPT ?d { TYPE "Preference" NAME "Light" SET FIELDS {key: "l"} }
-    }"#, &[], false).await;
-    showp(&n, r#"FIND(?c.id, ?c.name, ?c._system.state, ?c._system.version) WHERE { ?c CONCEPT {state: ?s} }"#, &[], false).await;
-    showp(&n, r#"MUTATE {
-        UPDATE :x SET FIELDS {name: "Bob B."}
-        UPDATE :x SET ATTRIBUTES {display_name: "BB"}
-        ARCHIVE :x
-    }"#, &[("x", "C-3")], false).await;
-    showp(&n, r#"UPDATE :x EXPECT VERSION 7 SET FIELDS {name: "Q"}"#, &[("x", "C-4")], false).await;
-    showp(&n, r#"UPDATE :x EXPECT VERSION 1 SET FIELDS {name: "Q"}"#, &[("x", "C-4")], true).await;
-    showp(&n, r#"UPDATE :x SET FIELDS {name: "Light"}"#, &[("x", "C-4")], false).await;
-    showp(&n, r#"ARCHIVE :x EXPECT STATE "archived""#, &[("x", "C-4")], false).await;
-    showp(&n, r#"TOMBSTONE :x"#, &[("x", "C-3")], false).await;
-    showp(&n, r#"MUTATE { CREATE CONCEPT ?z { TYPE "Person" NAME "Z" } UPDATE ?z SET FIELDS {name: "Zed"} UPDATE ?nope SET FIELDS {name: "n"} }"#, &[], false).await;
-    showp(&n, r#"MUTATE { CREATE CONCEPT ?z { TYPE "Person" NAME "Z" } UPDATE ?z SET FIELDS {name: "Zed"} }"#, &[], false).await;
-    showp(&n, r#"FIND(?c.id, ?c.name, ?c._system.state, ?c._system.version) WHERE { ?c CONCEPT {state: ?s} }"#, &[], false).await;
-    showp(&n, r#"ENSURE PROPOSITION ?p (:s, "prefers", :o)"#, &[("s","C-3"),("o","C-4")], false).await;
-    showp(&n, r#"ENSURE PROPOSITION ?p (:s, "prefers", :o) EXPECT VERSION 3"#, &[("s","C-3"),("o","C-4")], false).await;
-    showp(&n, r#"ENSURE PROPOSITION ?p (:s, "prefers", :o)"#, &[("s","C-4"),("o","C-3")], false).await;
-    showp(&n, r#"FIND(?c.id, ?c._system.state) WHERE { ?c CONCEPT {id: :i, state: ?s} }"#, &[("i","C-3")], false).await;
-    showp(&n, r#"SNAPSHOT"#, &[], false).await;
+fn main() {
+    drive::main_with(drive::Setup {
+        property: "C17",
+        rule: "a case is non-trivial when at least one statement committed with a non-empty change list; distinct by the sequence of receipts",
+        cfg: runner::Cfg { history: false, atomicity: true },
+        cases: (700, 30000),
+        len: (9, 16),
+    });
 }
